@@ -6,5 +6,6 @@ CONSTANTS
   LatchChecked = FALSE
   CloseLatches = TRUE
   TimeoutReleases = FALSE
+  HandlerControlPath = TRUE
 INVARIANTS TypeOK WholeFrames InOrder AfterClose
 CHECK_DEADLOCK FALSE
